@@ -29,7 +29,9 @@ def gen_case(rng, tier):
             extreme = rng.random() < 0.35
             if extreme:
                 spd, sdf, eps, sumdf = [rng.choice(PARAMS) for _ in range(4)]
-                adf, udf = rng.choice(PARAMS), rng.choice(PARAMS)
+                # (a decimation of 2^31 makes the library allocate a 32 GiB index buffer: legal, lazily mapped, but it
+                #  takes ASan ~20 s of mmap work and would only produce watchdog false alarms)
+                adf, udf = rng.choice([0, 0, 1, 9, 10, 11, 255, 1000, 65536, U32]), rng.choice([0, 0, 1, 9, 10, 11, 255, 1000, 65536, U32])
                 dist.append("extreme_def")
             else:
                 spd, sdf, eps, sumdf = proglib.min_def(dt) if rng.random() < 0.7 else (0, 0, 0, 0)
